@@ -1127,7 +1127,7 @@ def check_relational(tier):
 
 def _rel_check(fbs, evals, fails, t0, samples):
     return _mk_check('C13.monitor.iferror_relational',
-                     bound=f'{len(REL_X)} guarded expressions X over 25 library functions and operators (organic IndexError, AttributeError, '
+                     bound=f'{len(REL_X)} guarded expressions X over 38 library functions and the operators (organic IndexError, AttributeError, '
                            'TypeError, ValueError, ZeroDivisionError, ExcelInPythonException; results #N/A #REF! #NUM! #VALUE!; cells holding '
                            f'each of the 7 error values and 17 near-miss texts; plain values of every type) x {len(fbs)} fallbacks x '
                            '{IFERROR(X,F), IF(TRUE,IFERROR(X,F),"no"), IFERROR(IFERROR(X,F),"outer")} x {cell constants, overrides}',
@@ -1309,7 +1309,7 @@ def sc_entry_and_reuse(tier, rng):
                 parser.set_entrypoint_cell(Cell('S', 'Z', str(row + 1)))
             code = lib.call_catch(parser.get_translation)
             if isinstance(code, codec.Raised):
-                fails.append({'key': 'C13.api.entry.translate', 'what': f'={text} ({tag}) does not translate: {code!r}',
+                fails.append({'key': 'C13.api.entry.translate', 'what': f'={_one_line(text)} ({tag}) does not translate: {code!r}',
                               'replay': {'kind': 'api', 'scenario': 'entry_and_reuse'}})
                 return
             cls = lib.load_class_from_text(code)
@@ -1328,7 +1328,7 @@ def sc_entry_and_reuse(tier, rng):
                 n += 1
                 if not agree(got, exp, cls.EmptyCell):
                     key = classify(ast, env, got, cls.EmptyCell, 'api.entry')
-                    fails.append({'key': key, 'what': f'={text} ({tag}, {_fmt_assign(assign)}) -> {got!r}, expected {show(exp)}',
+                    fails.append({'key': key, 'what': f'={_one_line(text)} ({tag}, {_fmt_assign(assign)}) -> {got!r}, expected {show(exp)}',
                                   'replay': {'kind': 'api', 'scenario': 'entry_and_reuse'}})
         for i, (t, a) in enumerate(first + pick):
             run_one(path1, i, to_tuple(a), t, 'entry cell, workbook one')
